@@ -544,6 +544,7 @@ func runC19(c *Check) {
 	c.MinInstances("C19-R2", 1)
 	ruleKeyFileIndexing(c, p, "C19-R11")
 	ruleNoUseAfterCalleeZeroed(c, p, "C19-R13")
+	ruleSealersWriteBeforeSuccess(c, p, "C19-R14")
 	c.MinInstances("C19-R3", 3)
 	c.MinInstances("C19-R4", 2)
 }
@@ -965,4 +966,41 @@ func mutatesElements(fn *ssa.Function) bool {
 		}
 	}
 	return false
+}
+
+// ruleSealersWriteBeforeSuccess (C19-R14): importing (or saving) a key under a passphrase means
+// that afterwards the file opens with that passphrase. A function that seals a key reports
+// success only after it wrote the file: a shortcut that returns nil because "the same key is
+// already installed" leaves the old ciphertext (another passphrase, or damaged) in place while
+// reporting that the import succeeded.
+func ruleSealersWriteBeforeSuccess(c *Check, p *Prog, rule string) {
+	c.Doc(rule, "EO: every function of the key-file code that seals a private key returns success only after its write of the key file succeeded (no success path that leaves the previous file in place).")
+	n := 0
+	for _, fn := range p.Funcs {
+		pk := fnPkg(fn)
+		if pk == nil || pk.Pkg.Path() != filePkg || fn.Blocks == nil || fn.Parent() != nil || corrResult(fn) < 0 {
+			continue
+		}
+		if !callsNamed(fn, func(nm string) bool { return nm == "(crypto/cipher.AEAD).Seal" }) {
+			continue
+		}
+		n++
+		g := BuildECFG(p, fn, ownPkgOpts(filePkg, 1))
+		c.NoteGraph(g)
+		isWrite := func(t *Term) bool {
+			return t.IsCall("os.WriteFile") || t.IsCall("os.File).Write") || t.IsCall("os.Rename") || t.IsCall("os.File).Sync") || t.IsCall("os.File).Close")
+		}
+		wrote := g.Select(ErrNilEdge(isWrite))
+		inst := fnShort(fn) + " ⟂ success only after the key file was written"
+		if len(wrote) == 0 {
+			c.Bad(rule, inst, fnName(fn), p.Pos(fn.Pos()), "the function seals a key but no write of the key file is tested for success", nil)
+			continue
+		}
+		c.Decide(rule, inst, fnName(fn), p.InstrPos(wrote[0].In), "every success return lies behind the successful write of the key file",
+			"the function can report success without having written the key file: the previous file stays in place (sealed under another passphrase, or damaged), and the passphrase just given does not open it",
+			g, g.PathAvoiding([]*Node{g.Entry}, g.SuccessExits(), nodeSet(wrote)))
+	}
+	if n < 2 {
+		c.Unk(rule, "anchor-count", "", "", fmt.Sprintf("anchor lost: only %d functions seal a key in the key-file package", n))
+	}
 }
